@@ -90,7 +90,7 @@ pub fn finish(args: ReportArgs, m: MetaView, cases: &[Params], items: &[(usize, 
     }
 
     // ---- concrete validation of the encoding on the real suites
-    let nval = if args.thorough { 48 } else { 12 }.min(cases.len());
+    let nval = if args.thorough { 96 } else { 24 }.min(cases.len());
     let mut validated = 0u64;
     let mut conc_unusable = 0u64;
     let mut val_checks = 0u64;
@@ -235,6 +235,13 @@ pub fn finish(args: ReportArgs, m: MetaView, cases: &[Params], items: &[(usize, 
     if !solver_errors.is_empty() {
         inconclusive += 1;
         reported.push(format!("INCONCLUSIVE property={prop}: solver error lines: {:?}", &solver_errors[..solver_errors.len().min(3)]));
+    }
+    // a case that stated no obligation at all proves nothing (early return of the scenario):
+    // reported, so that a silently skipped case cannot pass for a verified one
+    let vacuous: Vec<&str> = results.iter().filter(|r| r.stats.obligations == 0 && r.failures.is_empty()).map(|r| r.desc.as_str()).collect();
+    if !vacuous.is_empty() {
+        inconclusive += 1;
+        reported.push(format!("INCONCLUSIVE property={prop}: {} case(s) stated no obligation (vacuous), e.g. {}", vacuous.len(), vacuous[0]));
     }
     if total.obligations == 0 {
         inconclusive += 1;
